@@ -624,6 +624,27 @@ def rand_config(rng, tier, want=None, force_abs=False):
     return cfg
 
 
+def vol_count_config(rng, tier):
+    """n_vols mod n_vec != 0, crossed with S mod n_vec = 0 / != 0 (and so n_files mod n_vec = 0 / != 0)"""
+    cfg = rand_config(rng, tier, want='timevec')
+    nvec = rng.choice([2, 2, 3])
+    while True:
+        counts = [rng.randint(1, 4) for _ in range(nvec)]
+        if sum(counts) % nvec != 0:
+            break
+    div = rng.random() < 0.6
+    cands = [s for s in range(1, 5 if tier == 'quick' else 7) if (s % nvec == 0) == div]
+    cfg['S'] = rng.choice(cands)
+    cfg['V'] = nvec
+    cfg['T'] = max(counts)
+    cfg['counts'] = counts
+    key = cfg['time_order']['key']
+    cfg['time_order'] = {'key': key, 'abs': None}
+    if callable(cfg['tagrules'].get(key)):
+        cfg['tagrules'][key] = 't'
+    return cfg
+
+
 def grid_from_config(rng, cfg):
     return make_grid(rng, cfg['S'], cfg['T'], cfg['V'], cfg['orient'], cfg['direction'], cfg['gap'],
                      cfg['origin'], cfg['rows'], cfg['cols'], cfg['ps'], cfg['tagrules'], cfg['consts'])
@@ -637,7 +658,7 @@ def pos_key(f):
 
 DEFECTS = ['none', 'none', 'drop1', 'dropk', 'drop_volume', 'drop_position', 'duplicate', 'misfiled_dup',
            'tie_straddle', 'gap', 'gap', 'rows', 'cols', 'spacing_lo', 'spacing_hi', 'orient_lo', 'orient_hi',
-           'nopix', 'collide', 'missing_key', 'extra_position', 'vec_uneven', 'bad_ordinate', 'vec_straddle', 'vec_straddle', 'vec_straddle', 'vec_move', 'pos_swap', 'pos_swap']
+           'nopix', 'collide', 'missing_key', 'extra_position', 'vec_uneven', 'bad_ordinate', 'vec_straddle', 'vec_straddle', 'vec_straddle', 'vec_move', 'pos_swap', 'pos_swap', 'vol_count', 'vol_count', 'vol_count']
 
 
 def apply_defect(rng, cfg, files, defect):
@@ -756,6 +777,13 @@ def apply_defect(rng, cfg, files, defect):
             if 'RepetitionTime' in cfg['consts']:
                 f['tags']['RepetitionTime'] = 750.0
             files.append(f)
+    elif defect == 'vol_count':
+        # explicit time and vector orders, vector value v present on counts[v] whole volumes: every slice position
+        # occurs equally often, but the number of volumes is not a multiple of the number of vector values
+        counts = cfg.get('counts')
+        if counts and cfg['vector_order'] is not None and cfg['time_order'] is not None:
+            files = [f for f in files if f['cell'][1] < counts[f['cell'][2]]]
+            note['counts'] = counts
     elif defect == 'pos_swap':
         # two volumes trade slice positions: every position still occurs equally often overall and the tuples stay
         # distinct (the moved files get a fresh time value inside their own volume's range), but one volume holds
